@@ -5,6 +5,13 @@ let case oc stream (s : string) =
   emit oc (Ob [ "stream", JS stream; "in", JS (hex s);
                 "exp", JS (hexb (Model.escape b)); "exp_fb", JS (hexb (Model.escape_fallback b)) ])
 
+(* non-string values: the filter sees their text form; the Go side builds a value of the given kind
+   whose text form is exactly `text` *)
+let vcase oc kind (text : string) =
+  let b = bytes_of_string text in
+  emit oc (Ob [ "stream", JS ("value:" ^ kind); "vkind", JS kind; "in", JS (hex text);
+                "exp", JS (hexb (Model.escape b)); "exp_fb", JS (hexb (Model.escape_fallback b)) ])
+
 let utf8_samples = [ "h\xc3\xa9llo <b>"; "\xe2\x82\xac & \xf0\x9f\x98\x80 'q'"; "\xff\xfe<\x80>"; "\xc3"; "a\x00b&" ]
 
 let run ~seed ~tier oc =
@@ -14,6 +21,15 @@ let run ~seed ~tier oc =
   for i = 0 to 255 do for j = 0 to 255 do
     case oc "exhaustive2" (Printf.sprintf "%c%c" (Char.chr i) (Char.chr j)) done done;
   List.iter (case oc "fixed") ([ ""; "&amp;"; "&amp;amp;"; "&lt;script&gt;"; "&#39;&#34;&quot;"; "&"; "&&&"; "<<>>\"\"''" ] @ utf8_samples);
+  List.iter (fun i -> vcase oc "int" (string_of_int i)) [ 0; 1; -1; 42; 4096; -9007199254740991; 9007199254740992 ];
+  List.iter (fun t -> vcase oc "bool" t) [ "true"; "false" ];
+  vcase oc "nil" "";
+  List.iter (fun t -> vcase oc "float" t) [ "0.5"; "-2.25"; "1000000"; "3" ];
+  List.iter (fun kind ->
+    List.iter (fun t -> vcase oc kind t)
+      [ "<"; ">="; "&&"; "\"quoted\""; "'?'"; "a<b>&\"c'"; "plain"; "" ];
+    for _ = 1 to 40 do vcase oc kind (rand_string r ~special:"<>&\"'" ~maxlen:12) done)
+    [ "stringer-int"; "stringer-struct"; "stringer-bool"; "stringer-float"; "error"; "bytes"; "named-string"; "ptr-stringer" ];
   let n = if tier = "thorough" then 40000 else 2000 in
   for _ = 1 to n do
     let maxlen = if rint r 20 = 0 then 5000 else 60 in
